@@ -635,6 +635,10 @@ func run(r *mon.Run) {
 				pl := sh.ParameterisedList{{Label: tok, Params: sh.Parameters{"k": v}}}
 				return pl.String()
 			})
+			mustRefuse(r, "identifier route, "+"param value: "+name, func() (string, error) {
+				pi := &sh.ParameterisedIdentifier{Label: tok, Params: sh.Parameters{"k": v}}
+				return pi.String()
+			})
 			mustRefuse(r, "list item: "+name, func() (string, error) { return sh.ListOfLists{{int64(1), v}}.String() })
 		}
 		mustRefuse(r, "list item: nil", func() (string, error) { return sh.ListOfLists{{nil}}.String() })
@@ -644,12 +648,20 @@ func run(r *mon.Run) {
 				pl := sh.ParameterisedList{{Label: tok, Params: sh.Parameters{sh.Key(k): int64(1)}}}
 				return pl.String()
 			})
+			mustRefuse(r, "identifier route, "+fmt.Sprintf("key %q", k), func() (string, error) {
+				pi := &sh.ParameterisedIdentifier{Label: tok, Params: sh.Parameters{sh.Key(k): int64(1)}}
+				return pi.String()
+			})
 		}
 		for _, l := range []string{"", "1a", "a b", "a,b", "a\"", "*", "\u00e9", "a\n"} {
 			l := l
 			mustRefuse(r, fmt.Sprintf("label %q", l), func() (string, error) {
 				pl := sh.ParameterisedList{{Label: sh.Token(l)}}
 				return pl.String()
+			})
+			mustRefuse(r, "identifier route, "+fmt.Sprintf("label %q", l), func() (string, error) {
+				pi := &sh.ParameterisedIdentifier{Label: sh.Token(l)}
+				return pi.String()
 			})
 		}
 		// non-ASCII runes whose low byte is an allowed character (a byte-wise check after truncation would let them through)
@@ -661,9 +673,17 @@ func run(r *mon.Run) {
 					pl := sh.ParameterisedList{{Label: sh.Token("t" + rn)}}
 					return pl.String()
 				})
+				mustRefuse(r, "identifier route, "+fmt.Sprintf("label with rune U+%04X", hi+rune(lowc)), func() (string, error) {
+					pi := &sh.ParameterisedIdentifier{Label: sh.Token("t" + rn)}
+					return pi.String()
+				})
 				mustRefuse(r, fmt.Sprintf("key with rune U+%04X", hi+rune(lowc)), func() (string, error) {
 					pl := sh.ParameterisedList{{Label: tok, Params: sh.Parameters{sh.Key("k" + rn): int64(1)}}}
 					return pl.String()
+				})
+				mustRefuse(r, "identifier route, "+fmt.Sprintf("key with rune U+%04X", hi+rune(lowc)), func() (string, error) {
+					pi := &sh.ParameterisedIdentifier{Label: tok, Params: sh.Parameters{sh.Key("k" + rn): int64(1)}}
+					return pi.String()
 				})
 				mustRefuse(r, fmt.Sprintf("string with rune U+%04X", hi+rune(lowc)), func() (string, error) { return sh.ListOfLists{{"s" + rn}}.String() })
 			}
